@@ -24,7 +24,7 @@ ASSUMPTIONS = [
 
 
 def generate(rng, tier):
-    return gen.gen_case(rng, {"p_demux": 0.12, "p_mixed_pair": 0.02, "p_devnull": 0.05, "p_qbase64": 0.04, "p_quiet": 0.04})
+    return gen.gen_case(rng, {"p_demux": 0.12, "p_mixed_pair": 0.02, "p_devnull": 0.05, "p_qbase64": 0.04, "p_quiet": 0.04, "p_nonascii_name": 0.04, "p_giant": 0.0008})
 
 
 def evaluate(case, ctx):
@@ -96,15 +96,22 @@ def conformance(seed, k):
             continue
         todo.append((index, case, files, s1, sn))
 
+    methods = {}
+
     def one(t):
         index, case, files, s1, sn = t
         inputs = set(gen.input_paths(case)) | set(case.get("aux_files") or ())
         r1 = realrun.run_real(gen.build_argv(case, cores=1), files, src)
-        rn = realrun.run_real(gen.build_argv(case, cores=case["knobs"]["workers"]), files, src)
+        method = case["knobs"].get("start_method", "fork")
+        if method == "spawn" and index % 2:
+            method = "forkserver"  # like spawn, nothing but pickled state reaches the children
+        rn = realrun.run_real(gen.build_argv(case, cores=case["knobs"]["workers"]), files, src, start_method=method)
+        methods[method] = methods.get(method, 0) + 1
         return index, realrun.compare(s1, r1, inputs), realrun.compare(sn, rn, inputs)
 
     agree1 = agreen = 0
     problems = []
+    methods = {}
     with ThreadPoolExecutor(8) as ex:
         for index, d1, dn in ex.map(one, todo):
             agree1 += not d1
@@ -114,6 +121,7 @@ def conformance(seed, k):
             if dn:
                 problems.append(f"case {index} --cores N: {dn}")
     return {"sim_vs_real_cases": len(todo), "sim_vs_real_agree_cores_1": agree1, "sim_vs_real_agree_cores_N": agreen,
+            "sim_vs_real_start_methods_of_the_real_runs": dict(sorted(methods.items())),
             "sim_vs_real_disagreements": problems[:5]}, problems
 
 
